@@ -397,10 +397,9 @@ def scenarios(d, rng):
     only = [s for s in param_slots(d, h1) if s[3]["hyps"] and not any(x[0] == s[0] for x in param_slots(d, h0))]
     if only:
         steps += [("set", h0, "R", only[0][0], "1.5", None), ("set", h1, "R", only[0][0], "0.375", None)]
-    if d["kind"] == "MP":
-        al = [s for s in param_slots(d, None) if s[3]["name"] != s[0]]
-        if al:
-            steps.append(("set", None, "R", al[0][3]["name"], "11.5", None))    # the variable name is accepted too
+    al = [s for s in param_slots(d, h0) if s[3]["name"] != s[0] and s[3]["size"] == 1 and s[1] == "R"]
+    if al:
+        steps.append(("set", h0, "R", al[0][3]["name"], "11.5", None))    # the variable name: accepted by material properties only
     sc.append(("refusals", {}, steps + calls))
     # parameter files in the current directory
     files = {}
